@@ -50,6 +50,8 @@ TREES = {
         "sub/index.md": page("Sub", "na\u00efve\n").encode("latin-1"), "sub/deep.md": page("Deep", "\u00e5ngstr\u00f6m\n").encode("latin-1")}, "encoding: latin-1\n"),
     "copy_subdir list with entries that are missing for some pages": ({
         "index.md": page("Root", copy=("drafts", "figs")), "figs/f.png": "f", "guide/index.md": page("Guide"), "guide/data/d.bin": "d"}, "copy_subdir: images\n             data\n"),
+    "a page directory named like a copy_subdir entry of the directory above": ({
+        "index.md": page("Root", copy=("images",)), "images/logo.png": "l", "sub/index.md": page("Sub"), "sub/images/index.md": page("Gallery"), "sub/images/one.md": page("One"), "sub/images/pic.png": "p"}, ""),
     "sub-directory whose index has no title": ({
         "index.md": page("Root"), "good.md": page("Good"), "broken/index.md": "no metadata here\n", "broken/inner.md": page("Inner"), "z.md": page("Z")}, ""),
 }
@@ -107,7 +109,9 @@ def model(tree, proj_copy):
                 continue
             full = (d + "/" if d else "") + nm
             if full in dirs:
-                walk(full)
+                # a directory that this directory's own page has copied verbatim is not rendered
+                if nm not in (m["copy_subdir"] or proj_copy):
+                    walk(full)
             elif nm.endswith(".md"):
                 mm = meta_of(tree[full])
                 if mm["title"] is not None:
